@@ -155,6 +155,7 @@ TResults ==
               /\ Len(Ev.posterior.tags) = Len(pc_)
               /\ \A i \in 1..Len(pc_) :
                    Ev.posterior.tags[i] = pc_[i][KernelOfKey(Hdr.postkey)])
+  /\ Chk("stored_results_unchanged_by_reading_and_summarising", Ev.reread_ok)
   /\ Chk("keys_distinct_across_chains_and_calls",
          Cardinality(SeqToSet(Ev.allkeys)) = Len(Ev.allkeys))
   /\ Chk("design_invariants",
